@@ -357,6 +357,7 @@ class Executor:
             # The job was derived before the reset dropped the inputs that an earlier run
             # had amended. They were hashed along with the others, but the step is not
             # given them: if it amends them again, what they look like then is the baseline.
+            run.launched_decl = self._declaration(step)
             current = {record.path for record in step.inp_paths()}
             run.start_inp_hashes = {
                 path: inp_hash
@@ -365,6 +366,11 @@ class Executor:
             }
         self._report_step_counts()
         await self._run_command(run)
+
+        if await self._restart_if_declared_again(run):
+            self.scheduler.record_run_stopped(step.i, succeeded=False)
+            self._report_step_counts()
+            return
 
         # Recompute the step hash (inputs and outputs).
         # Hashes are always updated, even for failed commands,
@@ -865,6 +871,35 @@ class Executor:
     #
     # Command execution helper
     #
+
+    async def _restart_if_declared_again(self, run: Run) -> bool:
+        """Make a step pending again when it was declared anew while its command ran.
+
+        Such a step kept its row and its command (see `Step.initialize_row`),
+        but the verdict of that command says nothing about the new declaration:
+        the step goes back to pending without a hash and runs again.
+
+        Returns
+        -------
+        restarted
+            Whether the declaration had changed and the step was made pending.
+        """
+        async with self.db:
+            if run.launched_decl == self._declaration(run.step):
+                return False
+            run.step.delete_hash()
+            run.step.set_state(StepState.PENDING)
+            return True
+
+    @staticmethod
+    def _declaration(step: Step) -> tuple:
+        """What a step declares, as far as a full recycle would not accept a difference."""
+        return (
+            sorted(record.path for record in step.inp_paths(dynamic=False)),
+            sorted(step.env_deps(dynamic=False)),
+            sorted(record.path for record in step.out_paths(dynamic=False)),
+            sorted(record.path for record in step.vol_paths(dynamic=False)),
+        )
 
     async def _run_command(self, run: Run):
         """Run the command of the step described by `run`."""
